@@ -42,7 +42,7 @@ CHECKS = {
              "oracle (metamorphic): all presentations give byte-identical files from a pool-flushed state; changing only out-of-bounds bytes changes nothing; SHA-256 of the caller's whole backing buffer unchanged. "
              "Padded-stride presentations include strides that are not a multiple of four (4*w + 1, 2, 3, 5, 6, 13 bytes). Non-trivial: >=2 colours and >=3 presentations; distinct = (codec, alpha, Exact, sharp, preprocessing, Method, presentation list).",
         assumptions=["sync.Pool state is normalised (runtime.GC x2) before each compared encode; history dependence is C11's subject"],
-        tests=[dict(name="TestC19", quick=1200, thorough=40000)],
+        tests=[dict(name="TestC19", quick=1200, thorough=16000)],
     ),
     "C20": dict(
         level="exploration",
